@@ -209,9 +209,9 @@ PROPS = {
     assumptions=[],
  ),
  "C11": dict(
-    level_text="Lean 4 proof about the per-item decision function of the four executor kinds (transcribed from the spawn_* functions) folded over ANY item list: the three counters add up to the number of items, each item feeds exactly one, the error callback runs once per failed item and never otherwise, a failed or timed-out item does not stop the fold, with a futures timeout every slow item is counted as timed out, and the event machine never has more item futures in flight than the limit. Tied to the code at history level: the counters handed to the real close callback, the error-callback invocation count and the measured maximum of concurrently running item futures of real tokio runs are compared with the model's fold (every kind x timeout x instruments x limit 1-8 x random item sequences).",
-    level_note="The decision table is hand-transcribed (model M10); tokio::time::timeout cancels at the deadline and futures::for_each{,_concurrent} respects its limit and visits every item - contracts, trusted and measured. Metrics-enabled instruments only (without metrics nothing is counted, by design); the fifth, internal spawn_non_futures_executor (failures counted, no callback parameter) is outside the four kinds of the property; concurrency_limit = 0 means unlimited in futures 0.3 and is outside the quantifier (limits 1..8).",
-    lean=["C11"],
+    level_text="Lean 4 proof about the per-item decision function of the four executor kinds - RE-READ FROM THE SOURCE ON EVERY RUN: the translator (tools/extract.py G5) walks the match arms and instrument guards of every item_processor closure of src/stream_executor.rs and emits every way through it as (outcome path, metrics?, counters fed, how the error callback is invoked) plus the arms of `match concurrency_limit`; Props/C11_Table.lean proves each generated table equal to the one computed from the model's classify, for every kind, with and without a timeout, with and without metrics (12 obligations) - folded over ANY item list: the three counters add up to the number of items, each item feeds exactly one, the error callback runs once per failed item and never otherwise, a failed or timed-out item does not stop the fold, with a futures timeout every slow item is counted as timed out, and the event machine never has more item futures in flight than the limit. Tied to the code at history level: the counters handed to the real close callback, the error-callback invocation count and the measured maximum of concurrently running item futures of real tokio runs are compared with the model's fold (every kind x timeout x instruments x limit 1-8 x random item sequences).",
+    level_note="The decision function classify of model M10 is tied to the source by the translator G5 (generated table = table computed from classify, machine-checked on every run); the translator is a 150-line brace-matching walker specialised to this file (a rewrite of the closures into another shape breaks it: reported as a broken obligation, then judged by the workload runs); tokio::time::timeout cancels at the deadline and futures::for_each{,_concurrent} respects its limit and visits every item - contracts, trusted and measured. Metrics-enabled instruments only (without metrics nothing is counted, by design); the fifth, internal spawn_non_futures_executor (failures counted, no callback parameter) is outside the four kinds of the property; concurrency_limit = 0 means unlimited in futures 0.3 and is outside the quantifier (limits 1..8).",
+    lean=["C11", "C11_Table"],
     scenarios=[dict(bin="exec", args=["sub=account"], runs=160, model_name="M10 Exec", thorough_scale=40), dict(bin="exec", args=["sub=account", "rt=multi"], runs=12, single=True, thorough_scale=10, model_name="M10 Exec")],
     rule="random executor kind, timeout on/off (futures kinds), instruments in {metrics, logs+metrics, none}, limit 1-8, 0-12 items over {ok, err, slow, slow-then-err}; paused-clock current-thread tokio runtime (+ a few multi-thread real-time runs); DISTINCT by trace hash; NON-TRIVIAL if the sequence contains an error or a slow item",
     trusted_base=TB_COMMON + ["tokio (task scheduling, paused clock, time::timeout) and futures 0.3 (for_each, for_each_concurrent) behave as documented"],
@@ -231,7 +231,7 @@ PROPS = {
  "C12": dict(
     level_text="Lean 4 proof on the same event machine: the close callback occurs at most once, only when the stream is dropped and nothing is in flight, and no item is yielded or finished after it, for every executor kind and limit; status word: register_execution_finish only produces one of the two ended states and ProgrammaticallyEnded exactly from ScheduledToFinish (remark theorem: a report_scheduled_to_finish store landing after it leaves a non-ended status); the Uni latch fires the user callback exactly once, at the n-th executor; with the newies executor spawned inside the oldies' callback every old item is processed before any new one. Tied to the code at history level (event logs of real tokio runs; status and start/finish deltas read inside the real callback).",
     level_note="Model M10/M11; tokio / futures contracts trusted; the status race of the remark theorem was searched for on the real code and not exhibited (it needs flush_and_cancel_executor concurrent with the stream's own end).",
-    lean=["C12"],
+    lean=["C12", "C11_Table"],
     scenarios=[dict(bin="exec", args=["sub=close"], runs=200, thorough_scale=40, model_name="M11 Exec", kinds=["close_callback_count", "callback_before_last_item", "status_not_ended", "finish_before_start", "panic"]),
                dict(bin="exec", args=["sub=account"], runs=100, thorough_scale=40, model_name="M10 Exec", kinds=["close_callback_count", "panic"]),
                dict(bin="exec", args=["sub=mcancel"], runs=150, model=False, single=True, thorough_scale=10, model_name="(oracle only: Multi executors removed individually)", kinds=["close_callback_count", "status_not_ended", "programmatically_ended_unscheduled", "finish_before_start", "callback_before_last_item", "cancel_refused", "panic"]),
